@@ -210,6 +210,23 @@ func runGeom(c Case) (v vkit.Verdict) {
 	if b2 := g.Bounds(); b2 == nil || !(b2.Min == b.Min && b2.Max == b.Max) {
 		return v.Fail("second Bounds() call gives %+v, first gave %+v", b2, *b)
 	}
+	if _, isBox := g.(*geom.Bounds); !isBox {
+		// the box that comes back is the caller's: growing it in place (as an accumulator: acc := g.Bounds();
+		// acc.Extend(...)) changes neither what g answers next time nor what a geometry without vertices answers.
+		// (A *Bounds returns itself; that is the one geometry whose Bounds() IS the geometry.)
+		saved := *b
+		grown := g.Bounds()
+		grown.Extend(&geom.Bounds{Min: geom.Point{X: -12345, Y: -23456}, Max: geom.Point{X: 34567, Y: 45678}})
+		if b3 := g.Bounds(); b3 == nil || !(b3.Min == saved.Min && b3.Max == saved.Max) {
+			return v.Fail("after the box returned by Bounds() was extended in place, Bounds() gives %+v, before it gave %+v", b3, saved)
+		}
+		for _, e := range []geom.Geom{geom.LineString{}, geom.MultiPoint{}, geom.Polygon{}, geom.MultiLineString{{}}, geom.GeometryCollection{geom.LineString{}}} {
+			if eb := e.Bounds(); eb == nil || !eb.Empty() {
+				return v.Fail("after the box returned by %T.Bounds() was extended in place, Bounds() of the empty %T is %+v, not the empty box", g, e, eb)
+			}
+		}
+		*b = saved
+	}
 	if c.G.T == "GeometryCollection" {
 		for i, m := range g.(geom.GeometryCollection) {
 			mj := c.G.Geoms[i]
